@@ -24,6 +24,13 @@ def run(chk, replay=None):
             guards["deviation_%s_FALSE_yields_counterexample" % dev] = g.violation
             if not g.violation:
                 raise vlib.Infra("vacuity guard: deviation %s not distinguished" % dev)
+        ll = vlib.run_tlc("LLMNRServer", vlib.cfg("C18_llmnr_live.cfg"), timeout=300)
+        chk.add_tlc("llmnr_server_liveness", ll)
+        gl = vlib.run_tlc("LLMNRServer", vlib.cfg("C18_llmnr_live.cfg").replace("CloseWaitsForHandlers = FALSE", "CloseWaitsForHandlers = TRUE"),
+                          allow_violation=True, timeout=300)
+        guards["deviation_CloseWaitsForHandlers_yields_counterexample"] = gl.violation
+        if not gl.violation:
+            raise vlib.Infra("vacuity guard: CloseWaitsForHandlers not distinguished")
         chk.part("vacuity_guards", **guards)
 
         # ---- model -> code: forced schedules on the real UDP servers
@@ -43,6 +50,13 @@ def run(chk, replay=None):
                                                   "shard": sh, "shards": shards}, "sched_%s_%d" % (srv, sh), False))
             jobs.append(("c18.sched", opedges, {"server": srv, "max": 1, "seed": chk.seed, "clients": CL16, "ops": OPS16}, "opcodes_" + srv, False))
         jobs.append(("c18.tcpops", opedges, {"ops": OPS16}, "opcodes_TCPServer", False))
+        # ---- LLMNR server: handlers as gates, Close (from outside or from a handler) at every point
+        lledges = os.path.join(d, "llmnr.ndjson")
+        r = vlib.run_tlc("LLMNRServer", vlib.cfg("C18_llmnr.cfg", NREQ=2 if tier == "quick" else 3), emit_to=lledges, timeout=600)
+        chk.add_tlc("llmnr_server_graph", r)
+        lsh = 2 if tier == "quick" else 6
+        for sh in range(lsh):
+            jobs.append(("c18.llmnr", lledges, {"seed": chk.seed, "max": 40 if tier == "quick" else 600, "shard": sh, "shards": lsh}, "llmnr_sched_%d" % sh, False))
         # ---- code -> model: free-running executions under the race detector
         rounds, per = (2, 30) if tier == "quick" else (10, 60)
         for mode in ("nbns-udp", "nbns-server", "nbns-tcp", "llmnr-server"):
